@@ -68,13 +68,17 @@ Theorem y_enum_dict_keys_refuted :
   obs Yenum false (d1 E_A (va (AInt 1))) (d1 (AInt 1) (va (AInt 1))) = (Some true, YNonEmpty).
 Proof. vm_compute. reflexivity. Qed.
 
-(* the three ways use_enum_value breaks the property at a directly compared position
+(* the ways use_enum_value breaks the property at a directly compared position
    (what y_enum_transfer leaves open): *)
-(* C12-enum-none-value: a None-valued member facing None *)
-Theorem y_enum_none_value_refuted :
-  obs Yenum false (va E4_N) (va ANone) = (Some true, YNonEmpty) /\
-  obs Yenum false (d1 ks (va E4_N)) (d1 ks (va ANone)) = (Some true, YNonEmpty) /\
-  obs Yenum false (d1 ks (va E4_N)) (d1 ks (va E4_N)) = (Some true, YEmpty).
+(* C12-enum-none-value - a None-valued member facing None - is FIXED in /repo c9e614d: the former witness,
+   now on the side of the property (y_enum_none_agrees is the general statement); a None-valued member
+   facing a VALUE is still a difference for both engines *)
+Theorem y_enum_none_value_fixed :
+  obs Yenum false (va E4_N) (va ANone) = (Some true, YEmpty) /\
+  obs Yenum false (d1 ks (va E4_N)) (d1 ks (va ANone)) = (Some true, YEmpty) /\
+  obs Yenum false (d1 ks (va ANone)) (d1 ks (va E4_N)) = (Some true, YEmpty) /\
+  obs Yenum false (d1 ks (va E4_N)) (d1 ks (va E4_N)) = (Some true, YEmpty) /\
+  obs Yenum false (d1 ks (va E4_N)) (d1 ks (va (AStr (s2p "x")))) = (Some false, YNonEmpty).
 Proof. vm_compute. repeat split; reflexivity. Qed.
 (* C12-enum-same-class-members: two members of ONE class are never unwrapped by _diff *)
 Theorem y_enum_same_class_refuted :
